@@ -38,7 +38,7 @@ def scripts_for_factory(ctx, ncases):
         rng = ctx.rng.__class__(ctx.seed * 7919 + zlib.crc32(cfg.tag.encode()) % 100000)
         out = []
         for i in range(ncases):
-            cx = pm.random_complex(rng)
+            cx = pm.random_complex(rng, dense=0.08)
             # 65521 rarely: its inverse table costs O(p^2) (about 3 s of CPU per matrix)
             p = 2 if cfg.z2 else (65521 if rng.random() < 0.03 else rng.choice([3, 5, 7, 11, 13, 251, 3, 5]))
             name = "%s#%d(%s,p=%d)" % (cfg.tag, i, cx.desc, p)
